@@ -378,8 +378,9 @@ pub fn run(args: &Args) -> i32 {
          up to 256 KiB). distinct_nontrivial = distinct case descriptors with at least one byte to move or a fault to hit. \
          L2 (coverage.l2): position-coded streams through real HTTP/1.1 and HTTP/2 tunnels over TLS on loopback.",
     ));
-    rep.assume("L1: mirror endpoints implement the pipe::Source/Sink contract (flush after eof succeeds); L2: real codec sinks end to end on loopback, stall = 30 s without a byte of progress in either direction (inconclusive if scheduler lag exceeded 2 s); HTTP/3 not exercised");
+    rep.assume("L1: mirror endpoints implement the pipe::Source/Sink contract (flush after eof succeeds); L2: real codec sinks end to end on loopback, stall = 30 s without a byte of progress in either direction (inconclusive if scheduler lag exceeded 2 s); HTTP/3 tunnels over real QUIC on loopback, incl. a 400 ms window in which every packet from the endpoint is lost");
     rep.assume("virtual time (tokio paused clock); stall = no completion within 200000 virtual seconds");
+    if args.has_flag("--only-h3") { crate::props::h3_l2::c02_h3(&rep, args); return rep.finish(); }
     if let Some(p) = &args.replay {
         let v: Value = serde_json::from_str(&std::fs::read_to_string(p).unwrap_or_default()).unwrap_or_default();
         let Some(case) = case_from_json(&v["witness"]["case"]) else {
